@@ -135,7 +135,8 @@ func (d *treeDriver) run(idx int, steps []tstep) error {
 		}
 		d.c = nc
 	}
-	d.dirty = true // cleared when the behaviour conforms to the end
+	d.out.Begin(id, "tree:crash") // a panic of the manager is attributed to this behaviour
+	d.dirty = true                // cleared when the behaviour conforms to the end
 	c := d.c
 	bm := c.Node.BM
 	root := c.Tip
